@@ -41,6 +41,7 @@ class Check(HCheck):
             al.as_str(al.page(Ab, True)),  # LRUs handed over as str (the API encodes them)
             al.as_str(al.CB_CROSS),
             al.as_iter(al.LB_SELF),
+            al.as_iter(al.CB_SEVERAL),
             al.crawl_alias(Ab, (Axy,), (Ab, Az)),
         ]
         d = 5 if thorough else 4
@@ -105,6 +106,28 @@ class Check(HCheck):
             missing = [x for x in exp if x not in got]
             extra = [x for x in got if x not in exp]
             ctx.fail("page-set", "page enumeration differs from the submitted pages: missing/altered %s, invented/duplicated %s" % (_sh(missing), _sh(extra)))
+        g1, g2 = t.pages_iter(), t.webentity_prefix_iter()
+        a1 = []
+        live = [True, True]
+        budget = 20 * (len(m.pages) + len(m.links) + len(m.named) + 10)
+        while any(live):
+            budget -= 1
+            if budget < 0:
+                ctx.fail("enumeration-does-not-end", "two enumerations advanced in turns do not terminate")
+                return
+            if live[0]:
+                try:
+                    node, lru = next(g1)
+                    a1.append((lru, bool(node.is_crawled())))
+                except StopIteration:
+                    live[0] = False
+            if live[1]:
+                try:
+                    next(g2)
+                except StopIteration:
+                    live[1] = False
+        if sorted(a1) != got:
+            ctx.fail("page-set-interleaved", "page enumeration advanced in turns with the prefix enumeration gives %s, alone %s" % (_sh(sorted(a1)), _sh(got)))
         n = t.count_pages()
         if n != len(m.pages):
             ctx.fail("page-count", "page count %r, %r pages were submitted" % (n, len(m.pages)))
